@@ -686,7 +686,10 @@ func flatCatalogues(c *Ctx) (singles, pairs []gen.Feature) {
 	nearNames := func(ct gen.Content) bool {
 		return ct.Class == "ref-aux-names" || ct.Class == "ref-local-names" || ct.Class == "inline-names"
 	}
-	singles = gen.Catalogue(three, nil, func(ct gen.Content) bool { return !nearNames(ct) })
+	containerPtr := func(ct gen.Content) bool { return ct.Class == "pointer-container" }
+	ptrHolders := map[string]bool{"prop": true, "opBody": true, "codeResponse": true, "sharedResponse": true}
+	singles = gen.Catalogue(three, nil, func(ct gen.Content) bool { return !nearNames(ct) && !containerPtr(ct) })
+	singles = append(singles, gen.Catalogue(three, func(hn string) bool { return ptrHolders[hn] }, containerPtr)...)
 	singles = append(singles, gen.Catalogue(three, func(hn string) bool { return sweepHolders[hn] }, nearNames)...)
 	rest := gen.Sigma[:0:0]
 	for _, n := range gen.Sigma {
